@@ -456,7 +456,7 @@ func (n *Node) monAfter(what string, in *Payload, pre apiPre, quietCheck bool) {
 
 // monTxSupplied: C12 reference model "requested \ supplied".
 func (n *Node) monTxSupplied(h H, wasRequested bool, preView byte, preLeaving, preReq, preResp bool) {
-	if !n.trusted() || !wasRequested {
+	if !n.trusted() || !wasRequested || !n.isValidator() {
 		return
 	}
 	c := n.ctx()
